@@ -106,3 +106,25 @@ func c06SocketsFaults(route int, what string) {
 
 func VerifC06_SocketsFaultsUDP() { c06SocketsFaults(0, "SendUDP") }
 func VerifC06_SocketsFaultsTCP() { c06SocketsFaults(1, "SendTCP") }
+
+// "... over the configured transport - a connected UDP socket by default": a datagram that reaches the bind
+// port from another port than the controller's is not the controller's reply - the call waits for the
+// controller (which stays silent here) and fails at the deadline
+func VerifC06_SendUDPIsConnected() {
+	const timeout = 400 * time.Millisecond
+	dg := nondetBytes("dg", 64)
+	t0 := verifClock()
+	verifNetFaults(false)
+	verifNetScript([][]byte{dg})
+	verifNetFromOtherPort(0)
+	a := verifNetArrival(0) - t0
+	verifAssume(a >= int64(20*time.Millisecond) && a <= int64(200*time.Millisecond))
+	u := &ut0311{bindAddr: netip.AddrPort{}, timeout: timeout}
+	req := nondetBytes("request", 64)
+	verifAssume(req[1] != 0x96)
+	reply, err := u.SendUDP(&net.UDPAddr{IP: net.IPv4(127, 0, 0, 1), Port: verifPeerPort()}, req)
+	verifObserve("err", err != nil)
+	verifAssert(err != nil && reply == nil, "SendUDP: a datagram from another endpoint is not taken for the controller's reply (connected socket)")
+	verifAssert(verifSockOpen() == 0, "SendUDP: socket closed")
+	verifReach("c06.connected")
+}
